@@ -52,6 +52,10 @@ def c07(tier, rng, fam='C07'):
                         b.step('sopen', c=1, kind=kind, hp=hp, **({'to': 1000} if form == 'deadline' else {}))
                         for st in steps[:pos]:
                             emit(b, 1, st)
+                        if pos % 3 == 1:
+                            # the application has "closed" its ClientConn meanwhile (Close reports to the stats handlers and
+                            # nothing else): calls in flight are cancelled like any others
+                            b.step('ccclose')
                         if form == 'cancel':
                             b.step('cancel', c=1)
                         else:
